@@ -8,7 +8,8 @@ from ..runner import Part, Violation
 ID = "C19"
 RULE = ("every line of a generated GFA1/GFA2 document, stand-alone (gfapy.Line) and connected inside a Gfa "
         "(including the merged header), vlevel 0-3, is cloned; oracle: clone not connected, same written form, "
-        "== original; identity scan: no mutable object (list, CIGAR, operation, OrientedLine, dict, FieldArray, "
+        "== original; in half of the cases two JSON tags are first created through the API with Python values and a "
+        "clone is taken before anything reads or writes the line; identity scan: no mutable object (list, CIGAR, operation, OrientedLine, dict, FieldArray, "
         "NumericArray) reachable from both; EVERY mutable value reachable from the clone is edited in place and "
         "fields/tags are reassigned/deleted, after which the original line, its Gfa and the lines it references "
         "must write the same text; then the same with the roles exchanged. non-trivial = the line has >= 1 "
@@ -129,7 +130,27 @@ def snapshot(line, gfa):
     return snap
 
 
-def check_line(line, gfa, what, labels):
+def check_line(line, gfa, what, labels, pre=False):
+    if pre and line.record_type != "#":
+        # tags created through the API with Python values (never parsed from text), and a clone
+        # taken before anything reads or writes the line
+        try:
+            line.set("zj", {"a": [1, {"b": 2}], "c": "x"})
+            line.set("zk", [1, "a", [2]])
+            made = True
+        except Exception:
+            made = False
+        if made:
+            try:
+                c0 = line.clone()
+            except Exception as e:
+                raise Violation("clone-raised", "clone of %s with API-made JSON tags raised %s: %s" % (what, type(e).__name__, str(e)[:300]), type(e).__name__)
+            shared = set(all_mutables(c0)) & set(all_mutables(line))
+            if shared:
+                objs = all_mutables(c0)
+                raise Violation("shared-object", "clone of %s (tags zj/zk set through the API, cloned before any read or write) shares mutable object(s) with the original: %s" % (
+                    what, [type(objs[i]).__name__ for i in shared][:4]), "api-made/" + type(objs[next(iter(shared))]).__name__)
+            labels["api_made_tags"] = True
     # warm-up read: at vlevel 0 the first access decodes lazily parsed fields and may
     # re-spell them (documented); snapshots are taken after that
     for fn in fields_of(line):
@@ -209,7 +230,7 @@ def prop(case):
         l = gfapy.Line(lines[idx], version=version, vlevel=vlevel)
     except Exception as e:
         raise Violation("load", "valid line rejected: %r %s" % (lines[idx], e), type(e).__name__)
-    check_line(l, None, "stand-alone line", labels)
+    check_line(l, None, "stand-alone line", labels, pre=case.get("pre", False))
     # connected: every line of the Gfa, a fresh Gfa per line because the second half edits in place
     n_lines = None
     k = 0
@@ -222,7 +243,7 @@ def prop(case):
         if k >= len(targets) or k >= case.get("max_lines", 6):
             break
         t = targets[(idx + k) % len(targets)]
-        check_line(t, g, "connected %s line" % ("header" if t is g.header else t.record_type), labels)
+        check_line(t, g, "connected %s line" % ("header" if t is g.header else t.record_type), labels, pre=case.get("pre", False))
         labels["rt_" + ("custom" if t.record_type not in "HSLCPEFGOU#" else t.record_type)] = True
         k += 1
     return labels
@@ -235,7 +256,7 @@ def st_case(draw):
     o = {"nseg": (1, 3), "comments": False}
     doc = gen.build_gfa1(r, o) if v == "gfa1" else gen.build_gfa2(r, o)
     return {"doc": {"version": v, "lines": doc["lines"]}, "vlevel": r.randrange(4), "index": r.randrange(50),
-            "max_lines": 5}
+            "max_lines": 5, "pre": gen.chance(r, 0.5)}
 
 
 def parts(tier):
